@@ -644,6 +644,21 @@ example : (keyedStep kbump id (freshPair 0 (fun _ => (none : Option Unit)) (fun 
 theorem freshPair_labels (dflt : α) (pos1 pos2 : Nat → Option β) (k : Nat × Nat) :
     (freshPair dflt pos1 pos2 k).klabels = (k.1, k.2, pos1 k.1, pos2 k.2) := rfl
 
+/-- **HeightField bookkeeping** (`contact_manifolds_heightfield_shape`, the same `Entry`/`take`/`retain` code keyed by cell or
+triangle id): for every history of duplicate-free reported-cell lists, from the empty workspace, no call panics and the
+invariant holds, so `keyedStep_spec` / `keyedStep_parts` apply to every call: one manifold per reported cell, in order,
+labelled `(i, 0)` — `(0, i)` when flipped — without part poses, continuing that cell's own previous manifold. -/
+theorem heightfieldRun_ok (flipped : Bool) (dflt : α) (clr : α → α)
+    (calls : List ((Nat → WManifold α β → WManifold α β) × List Nat))
+    (h : ∀ c ∈ calls, c.2.Nodup ∧ ∀ l m, (c.1 l m).klabels = m.klabels) :
+    ∃ ws' ms', keyedRun clr (freshCell flipped dflt) (KWorkspace.new : KWorkspace Nat) [] calls = some (ws', ms') ∧
+      KInv (freshCell (β := β) flipped dflt) ws' ms' :=
+  keyedRun_ok clr _ calls _ _ (kInv_new _) h
+
+theorem freshCell_labels (flipped : Bool) (dflt : α) (i : Nat) :
+    (freshCell (β := β) flipped dflt i).klabels = if flipped then (0, i, none, none) else (i, 0, none, none) := by
+  cases flipped <;> rfl
+
 end KeyedBookkeeping
 
 end C14
